@@ -12,6 +12,18 @@ CHECKS = {
             'Static proof-by-schema: for each of the (pc, stab) specialisations and criterion lists the constraint families handed to PuLP before the first solve are extracted in closed form (forall-families over symbolic instance data, never an instance) and shown equal to the definition of a valid matching; variables Binary; grouping lists = scatter of all pairs by their own index; read-back selects by the same variables. This covers every instance and option set at once, which no finite test can; it decides the structural clause (the LP\'s solutions are exactly valid matchings), not CBC\'s behaviour.',
             'Trusted: CPython ast; PuLP semantics of LpVariable/+=/solve (A3); CBC returns exact 0/1 values (A6); well-formed instance (A1); the four row-membership facts discharged by C01.R4/C03.R4/C10.',
             'DESIGN.md section 5 C01'),
+    'C02': ('name-template language intersection (product automaton); polynomial bound domination of every objective/auxiliary variable over valid matchings; closed classification of the constraint families; table agreement; load-balancing agreement over ordered criterion pairs; exception-source scan of the specialised effect trees',
+            'Static argument that the LP\'s feasible set projected on x equals the valid (and, with -stab, stable) matchings and stays non-empty after every freeze: before the first solve the problem holds exactly the reference families; every objective/auxiliary variable has bounds that dominate the range of its defining expression (derived symbolically from the declared bounds, the student-row family and axioms A1/A2, e.g. n*R*a <= n*P*a); all variable and constraint name templates are pairwise disjoint and injective; criteria that read the load-deviation variables always find them declared and defined; scalar flags never have their (None) extras touched; one solve without criteria and non-empty per-rank ranges for admissible cut-offs. Sound for PASS; a FAIL means "not derivable" and each FAIL on the pinned tree was confirmed with a failing input (D1-D5, now fixed).',
+            'Trusted: ast; A1 (well-formed instance), A2 (non-negative integer multipliers, cut-offs within 1..max rank), A3, A6. CBC process failures and numeric effects are not decided.',
+            'DESIGN.md section 5 C02'),
+    'C03': ('per-criterion objective schema in linear normal form vs the documented criterion table, for every arity (defaults); closed-form rank ranges (max/min-normalised); sense x sign; deviation definition; rank-list scatter schema; closed classification of the feasible region',
+            'Static: for each of the nine criteria and each number of optional arguments the constraint linking the objective variable is extracted in closed form and shown equal to the documented measured quantity (with the documented defaults substituted), its direction follows from the problem sense and the sign handed to the solve, generous/greedy rank loops cover exactly R..max(1,k) descending / 1..min(k,R) ascending, rank_lists[r-1] holds the pairs of rank r, the load deviation is defined two-sidedly, and the region optimised over is exactly the requested one. Decides the model handed to CBC, not CBC.',
+            'Trusted: ast; A1-A3; A6 (CBC returns a true optimum of the model it is given).',
+            'DESIGN.md section 5 C03 + Appendix B'),
+    'C04': ('freeze typestate (set objective -> solve -> freeze with the comparator matching the direction) on every specialised tree; dispatch-order and who-may-solve over ordered criterion lists; sense constancy; load-balancing agreement; scatter/compact ordering helper',
+            'Static: on every single criterion, 20+ ordered pairs and both full orders (thorough: all 72 pairs and 504 triples) each solve is preceded by the objective of the same variable and followed, before the next objective, by the freeze f >= f* (MAX) or f <= f* (MIN) on the same single problem whose sense never changes; criteria are dispatched by iterating the ordered list itself; positions reach list order through the scatter/compact helper. Together these are the lexicographic composition argument.',
+            'NOT decided: a rounded varValue making the freeze cut the optimum. Trusted: ast, A3, A6.',
+            'DESIGN.md section 5 C04'),
     'C05': ('linear normal form of the alpha/beta/gamma families (incl. sorted-prefix-scan and running-prefix summaries) compared with the reference SPA-STL encoding; oracle re-derived exhaustively over the predicate abstraction',
             'Static proof-by-schema: under -stab the three stability families handed to PuLP are extracted as forall-families over symbolic instance data and shown equal to the reference encoding, which is itself shown equivalent to the blocking-pair definition on all feasible valuations of 7 predicates; alpha/beta Binary; families unconditional, before any solve, absent without -stab. Covers every two-sided instance at once. A different-but-equivalent encoding is outside the fragment (exit 2), not a violation.',
             'Trusted: ast; A1, A3, A6; rows of pairs sorted by dense ranks from 1 (discharged by C10/C13); row-membership facts (C01.R4).',
